@@ -47,5 +47,27 @@ def d12_parse_neutralc_pro():
 
 CMDS = {"d10": d10_single_residue_chain, "d12": d12_parse_neutralc_pro}
 
+
+
+def d13_ile_chi2():
+    """C05: ILE chi2 (CA CB CG1 CD1, pivot CG1) moves HG21/HG22/HG23 although their parent CG2 does not move."""
+    from tables import pipeline as pl
+
+    frag = _frag("ILE", 1, 3)
+    r = pl.run(frag, ["--ff=PARSE", "--noopt", "--nodebump"])
+    if r["ok"]:
+        b = r["biomolecule"]
+        b.set_reference_distance()
+        res = b.residues[1]
+        moved = set(res.get_moveable_names("CG1"))
+        if {"HG21", "HG22", "HG23"} & moved and "CG2" not in moved:
+            print("STILL-FAILS ILE chi2 would move", sorted({"HG21", "HG22", "HG23"} & moved), "but not their parent CG2")
+            return
+    print("no longer fails")
+
+
+CMDS["d13"] = d13_ile_chi2
+
+
 if __name__ == "__main__":
     CMDS[sys.argv[1]]()
